@@ -13,6 +13,8 @@ func runExtraEngine(eng *Engine, spec, prop, tier string, seed int, verif, repo 
 	switch spec {
 	case "effects:entropy":
 		return eng.effectsEntropy(props), nil, nil
+	case "effects:raw-draw":
+		return eng.effectsRawDraw(props), nil, nil
 	case "effects:no-recover":
 		return eng.effectsNoRecover(props), nil, nil
 	case "effects:frames":
